@@ -40,7 +40,11 @@ func ZZC20_extract() {
 	zztar.Input = nil
 	links := 0
 	for i := 0; i < n; i++ {
-		name := zzString("name", zzInt("name_len", 0, 5+zzTier()))
+		maxLen := 5 + zzTier()
+		if i > 0 {
+			maxLen = 3 // a second entry (thorough) is short: it can still be ".", "..", "../" or a name the first one created
+		}
+		name := zzString("name", zzInt("name_len", 0, maxLen))
 		h := zztar.Header{Name: name, Mode: 0644}
 		switch zzInt("type", 0, 3) {
 		case 0:
